@@ -22,7 +22,7 @@ def sh(cmd, cwd=None):
     return p.returncode, p.stdout
 
 
-def imp(wt, prop):
+def imp(wt, prop, tag="n"):
     out = os.path.join(wt, "OUT")
     meta = json.load(open(os.path.join(out, "meta.json")))
     for k, ch in enumerate(meta.get("changes", []), 1):
@@ -34,10 +34,10 @@ def imp(wt, prop):
         if rc != 0:
             print("does not apply:", f, o[-200:])
             continue
-        d = os.path.join(NEU, "%s-n%d" % (prop, k))
+        d = os.path.join(NEU, "%s-%s%d" % (prop, tag, k))
         os.makedirs(d, exist_ok=True)
         shutil.copy(f, os.path.join(d, "patch.diff"))
-        json.dump({"id": "%s-n%d" % (prop, k), "anchored_in": prop, "kind": ch.get("kind"), "summary": ch.get("summary"), "why_equivalent": ch.get("why_equivalent"),
+        json.dump({"id": "%s-%s%d" % (prop, tag, k), "anchored_in": prop, "kind": ch.get("kind"), "summary": ch.get("summary"), "why_equivalent": ch.get("why_equivalent"),
                    "author": "independent sub-agent given only the property text and a scratch worktree of /repo; asked for behaviour-preserving refactorings",
                    "suite_passes_reported": ch.get("suite_passes")}, open(os.path.join(d, "meta.json"), "w"), indent=1, ensure_ascii=False)
         print("imported", d)
@@ -75,7 +75,7 @@ def check(ids, tier, only=None):
 if __name__ == "__main__":
     a = sys.argv[1:]
     if a and a[0] == "import":
-        imp(a[1], a[2])
+        imp(a[1], a[2], a[3] if len(a) > 3 else "n")
     elif a and a[0] == "check":
         tier = a[a.index("--tier") + 1] if "--tier" in a else "quick"
         only = a[a.index("--props") + 1].split(",") if "--props" in a else None
